@@ -24,6 +24,8 @@ SIG = {
     "cvrp_table": "cvrp/op: an off-table num_loc does not get the entry of a closest table key",
     "cvrp_fmt": "cvrp: generated instance outside the documented keys/shapes/ranges",
     "cvrptw": "cvrptw: generated window not ordered / not reachable from the depot / leaves no time to return",
+    "cvrptw_floor": "cvrptw: generator emits an unreachable customer for draws with equal window ends at floor(dist)",
+    "cvrptw_draws": "cvrptw: generator emits an ill-formed window (not ordered / unreachable / no time to return) for chosen legal draws",
     "cvrptw_far": "cvrptw: generator emits a customer that cannot be reached or left in time (2*dist > max_time) without tripping its feasibility assert",
     "mtvrp": "mtvrp: generated row violates the environment's solvability condition",
     "mtvrp_feat": "mtvrp: features of the generated row are not those of the requested preset",
@@ -84,20 +86,24 @@ class Run:
             self.stats[label] = st
 
 
-def mismatch_handler(run, what):
+def mismatch_handler(run, what, sig_of=None):
+    """codes of the model-vs-code checks (Harness/HC18_routing.v [judge]): 1 model differs; 6 property false on the
+    implementation's output for these (legal) chosen draws; 16 both.  6/16 are concrete failing inputs."""
     done = set()
 
     def h(meta, code):
-        if code == 1:
-            if what not in done:
-                done.add(what)
-                run.ctx.broken.append("correspondence C18/routing/%s: model and generator differ on %s"
-                                      % (what, {k: meta[k] for k in list(meta)[:8]}))
-        else:
+        if code in (1, 16) and what not in done:
+            done.add(what)
+            run.ctx.broken.append("correspondence C18/routing/%s: model and generator differ on %s"
+                                  % (what, {k: meta[k] for k in list(meta)[:8]}))
+        if code not in (1,):
+            sig = sig_of(meta) if sig_of else meta.get("sig", SIG["misc"])
             r = dict(meta)
+            r.pop("sig", None)
             r["code"] = code
-            r["what"] = "property false on the output the generator produced for these raw samples"
-            run.ctx.failure(meta.get("sig", SIG["misc"]), r, tag=what)
+            r["what"] = ("the generator, fed these raw draws (legal sampler outputs, patched in through the documented sampler kwargs / torch RNG calls), "
+                         "emits an instance on which the property's predicate is false")
+            run.ctx.failure(sig, r, tag=what.split(" ")[0].split(".")[0])
     return h
 
 
@@ -264,22 +270,34 @@ def cvrptw(run):
     rng = run.rng
     cases, metas = [], []
     reps = 20 if run.thorough else 6
-    branch = {"equal_draws": 0, "second_repair": 0}
+    branch = {}
     for rep in range(reps):
-        n = rng.choice([1, 2, 4, 7, 10])
-        T = rng.choice([480, 480, 400, 1000])
+        n = rng.choice([1, 2, 4, 7, 10]) if rep > 0 else 10
+        T = rng.choice([480, 480, 400, 1000]) if rep > 0 else 480
         B = 3
         locs, t1s, t2s = [], [], []
         for b in range(B):
             pts = _pyth_points(rng, n)
+            if rep == 0:      # boundary batch: the customers of modes 0 / 1 sit at a NON-integral distance 1.25 a (a odd)
+                for j in range(1, n + 1):
+                    if j % 6 in (0, 1):
+                        a_odd = 2 * rng.randint(0, 74) + 1
+                        pts[j] = (0.75 * a_odd, 1.0 * a_odd)
             locs.append(pts)
             r1, r2 = [], []
             for j in range(n + 1):
-                mode = rng.random()
-                if mode < 0.3:       # both tiny: equal truncations, lo - 1 < int(d): second repair
+                mode = (rng.randrange(6) if j > 0 else 5) if rep > 0 else (j % 6)     # the first batch cycles through every mode
+                if mode == 0:        # both draws 0: both ends = floor(dist) exactly (lo - 1 < int(dist): second repair)
+                    a_, b_ = 0.0, 0.0
+                elif mode == 1:      # both tiny: equal truncations at floor(dist) for non-integral dist
                     a_, b_ = rng.randint(0, 2) / 1024.0, rng.randint(0, 2) / 1024.0
-                elif mode < 0.5:     # equal draws
-                    a_ = b_ = rng.randint(0, 255) / 256.0
+                elif mode == 2:      # equal draws elsewhere: first repair (lo - 1)
+                    a_ = b_ = rng.randint(1, 255) / 256.0
+                elif mode == 3:      # neighbouring draws: ends one or two apart
+                    a_ = rng.randint(0, 254) / 256.0
+                    b_ = a_ + 1 / 256.0
+                elif mode == 4:      # extreme draws
+                    a_, b_ = rng.choice([0.0, 255 / 256.0]), rng.choice([0.0, 255 / 256.0])
                 else:
                     a_, b_ = rng.randint(0, 255) / 256.0, rng.randint(0, 255) / 256.0
                 r1.append(a_)
@@ -309,22 +327,42 @@ def cvrptw(run):
                 continue
             cust = [(ds[j], 0.0, t1s[b][j + 1], t2s[b][j + 1]) for j in range(n)]
             obs = [(int(tw[b, j, 0]), int(tw[b, j, 1])) for j in range(n + 1)]
+            kinds = []
             for j in range(n):
-                if t1s[b][j + 1] == t2s[b][j + 1]:
-                    branch["equal_draws"] += 1
-                if obs[j + 1][0] == math.floor(ds[j]) and obs[j + 1][1] == obs[j + 1][0] + 1:
-                    branch["second_repair"] += 1
+                dj = Fraction(ds[j])
+                ra = math.floor(dj + (T - 2 * dj) * Fraction(t1s[b][j + 1]))
+                rb = math.floor(dj + (T - 2 * dj) * Fraction(t2s[b][j + 1]))
+                kind = ("equal_at_floor_dist_nonintegral" if ra == rb == math.floor(dj) and dj.denominator != 1 else
+                        "equal_at_floor_dist_integral" if ra == rb == math.floor(dj) else
+                        "equal_elsewhere" if ra == rb else "one_apart" if abs(ra - rb) == 1 else "ordinary")
+                kinds.append(kind)
+                branch[kind] = branch.get(kind, 0) + 1
             cases.append("(%s, [%s], [%s])" % (qz(T), "; ".join(q4(c) for c in cust),
                                                "; ".join("(%s, %s)" % (cz(a), cz(b_)) for a, b_ in obs)))
             metas.append({"unit": "routing", "gen": "cvrptw", "kind": "model_vs_code", "max_time": T, "num_loc": n,
-                          "locs_depot_first": locs[b], "ts_1": t1s[b], "ts_2": t2s[b], "observed_time_windows": obs, "sig": SIG["cvrptw"]})
+                          "locs_depot_first": locs[b], "ts_1": t1s[b], "ts_2": t2s[b], "observed_time_windows": obs,
+                          "dist_to_depot": ds, "customer_kinds": kinds})
             run.ctx.seen({"cvrptw_b": [locs[b], t1s[b], t2s[b], T]}, nontrivial=n >= 2)
             run.ctx.count("cvrptw_model_vs_code_rows")
-    run.ctx.count("cvrptw_exact_customers_equal_draws", branch["equal_draws"])
-    run.ctx.count("cvrptw_exact_customers_window_[int(d),int(d)+1]", branch["second_repair"])
+    for k_, v_ in sorted(branch.items()):
+        run.ctx.count("cvrptw_exact_customers_" + k_, v_)
+    for k_ in ("equal_at_floor_dist_nonintegral", "equal_elsewhere", "one_apart"):
+        if not branch.get(k_):
+            run.ctx.broken.append("correspondence C18/routing/cvrptw: the chosen draws contain no customer of kind %s" % k_)
+
+    def cvrptw_sig(meta):
+        """mechanism-specific signature: which kind of draw does the first bad customer have?"""
+        T_ = meta["max_time"]
+        for j, (d_, w_, kind) in enumerate(zip(meta["dist_to_depot"], meta["observed_time_windows"][1:], meta["customer_kinds"])):
+            ok = 0 <= w_[0] < w_[1] and d_ <= w_[1] and w_[1] + d_ <= T_
+            if not ok:
+                meta["failing_customer"] = {"index": j + 1, "dist": d_, "window": list(w_), "draw_kind": kind,
+                                            "predicate": "cvrptw_customer_okb (0 <= lo < hi, dist <= hi, hi + dur + dist <= max_time)"}
+                return SIG["cvrptw_floor"] if kind.startswith("equal_at_floor_dist") else SIG["cvrptw_draws"]
+        return SIG["cvrptw_draws"]
     if metas:
         run.ctx.sample({k: metas[0][k] for k in ("gen", "kind", "max_time", "locs_depot_first", "ts_1", "ts_2", "observed_time_windows")})
-    run.add("cvrptw", "Q * list (Q * Q * Q * Q) * list (Z * Z)", "check_cvrptw", cases, metas, mismatch_handler(run, "cvrptw"))
+    run.add("cvrptw", "Q * list (Q * Q * Q * Q) * list (Z * Z)", "check_cvrptw", cases, metas, mismatch_handler(run, "cvrptw", cvrptw_sig))
 
     # (a) unmodified generator, scaled and unscaled
     cases, metas = [], []
@@ -454,7 +492,7 @@ def mtvrp(run):
                 cases.append("(%s, %s, %s, %s, %s, %s, %s, %s, %s, %s)" % (
                     cq(Fraction(1, 65536)), q(g.max_time), q(speed_v), q(d[b, j]), q(rs[0][b, j]), q(rs[1][b, j]), q(rs[2][b, j]),
                     q(tw[b, j + 1, 0]), q(tw[b, j + 1, 1]), q(svc[b, j + 1])))
-                metas.append({"unit": "routing", "gen": "mtvrp", "kind": "model_vs_code", "fn": "generate_time_windows", "speed": speed_v,
+                metas.append({"unit": "routing", "gen": "mtvrp", "kind": "model_vs_code", "fn": "generate_time_windows", "speed": speed_v, "sig": SIG["mtvrp"],
                               "d": float(d[b, j]), "draws": [float(r[b, j]) for r in rs],
                               "observed": [float(tw[b, j + 1, 0]), float(tw[b, j + 1, 1]), float(svc[b, j + 1])]})
                 run.ctx.seen({"mtvrp_tw": metas[-1]["draws"] + [metas[-1]["d"], speed_v]}, nontrivial=True)
@@ -488,7 +526,7 @@ def mtvrp(run):
             for j in range(n):
                 cases.append("(%s, %s, %s, %s, %s, %s)" % (q(float(torch.tensor(ratio, dtype=torch.float32))), q(ul[b, j]), q(ub[b, j]), q(r[b, j]),
                                                            cz(int(lin[b, j])), cz(int(back[b, j]))))
-                metas.append({"unit": "routing", "gen": "mtvrp", "kind": "model_vs_code", "fn": "generate_demands", "backhaul_ratio": ratio,
+                metas.append({"unit": "routing", "gen": "mtvrp", "kind": "model_vs_code", "fn": "generate_demands", "backhaul_ratio": ratio, "sig": SIG["mtvrp"],
                               "draws": [float(ul[b, j]), float(ub[b, j]), float(r[b, j])], "observed": [float(lin[b, j]), float(back[b, j])]})
                 run.ctx.seen({"mtvrp_dem": metas[-1]["draws"] + [ratio]}, nontrivial=True)
     run.ctx.count("mtvrp_demand_model_vs_code_nodes", len(cases))
@@ -497,6 +535,7 @@ def mtvrp(run):
     # (b3) subsample_problems for every preset on a fully featured batch
     cases, metas = [], []
     fcases, fmetas = [], []
+    subp_cases, subp_metas = [], []
     B, n = (6, 5)
     for name, probs in VARIANT_GENERATION_PRESETS.items():
         seed = run.seed()
@@ -518,8 +557,14 @@ def mtvrp(run):
         else:
             td1 = g.subsample_problems(full.clone())
             kinds = [(0, 0, [0, 0, 0, 0]) for b in range(B)]
+        dsub = get_distance(td1["locs"][:, 0:1], td1["locs"][:, 1:])
         for b in range(B):
             kind, idx_b, u_b = kinds[b]
+            subp_cases.append("(%s, %s, [%s], %s)" % (cz(zs(float(td1["vehicle_capacity"][b, 0]))), q(td1["speed"][b, 0]),
+                                                      "; ".join(q(x) for x in dsub[b]), _row_of(td1, b)))
+            subp_metas.append({"unit": "routing", "gen": "mtvrp", "kind": "model_vs_code", "fn": "subsample_problems", "preset": name,
+                               "keep_kind": kind, "index": idx_b, "uniform": u_b, "torch_seed": seed, "row": b,
+                               "what": "subsample_problems on a fully featured generated batch emits a row violating the solvability condition"})
             cases.append("(%d%%nat, %d%%nat, %s, %s, %s, %s)" % (kind, idx_b, q4(u_b), q4(p4), _row_of(td0, b), _row_of(td1, b)))
             metas.append({"unit": "routing", "gen": "mtvrp", "kind": "model_vs_code", "fn": "subsample_problems", "preset": name,
                           "keep_kind": kind, "index": idx_b, "uniform": u_b, "torch_seed": seed, "row": b})
@@ -532,6 +577,7 @@ def mtvrp(run):
     run.ctx.count("mtvrp_subsample_model_vs_code_rows", len(cases))
     run.add("mtvrp_sub", "nat * nat * (Q * Q * Q * Q) * (Q * Q * Q * Q) * mtvrp_row * mtvrp_row", "check_mtvrp_sub", cases, metas,
             mismatch_handler(run, "mtvrp.subsample_problems"))
+    run.add("mtvrp_sub_prop", "Z * Q * list Q * mtvrp_row", "check_mtvrp_prop", subp_cases, subp_metas, prop_handler(run, "mtvrp"))
 
     # (a) the unmodified generator: features per preset name + solvability, all presets
     pcases, pmetas = [], []
@@ -875,6 +921,27 @@ def replay(obj):
             print("observed:", repr(e))
             print("still fails")
             return 1
+    if kind == "model_vs_code" and gen == "cvrptw" and "observed_time_windows" in obj:
+        from rl4co.envs.routing.cvrptw.generator import CVRPTWGenerator
+        L = torch.tensor([obj["locs_depot_first"]], dtype=torch.float32)
+        n = L.shape[1] - 1
+        g = CVRPTWGenerator(num_loc=n, max_time=obj["max_time"], loc_sampler=FixedSampler(L), demand_sampler=FixedSampler(torch.full((1, n), 3.5)))
+        print("generator: CVRPTWGenerator(num_loc=%d, max_time=%s) with loc_sampler returning locs_depot_first and torch.rand patched to ts_1 / ts_2" % (n, obj["max_time"]))
+        print("expected: every customer has 0 <= tw_lo < tw_hi, dist(depot, j) <= tw_hi and tw_hi + dist(j, depot) <= max_time")
+        try:
+            with patched(torch, "rand", queue_fn([torch.tensor([obj["ts_1"]], dtype=torch.float32), torch.tensor([obj["ts_2"]], dtype=torch.float32)])):
+                td = g(1)
+        except AssertionError as e:
+            print("observed: generator raises", repr(e))
+            print("still fails")
+            return 1
+        d = get_distance(td["depot"], td["locs"].transpose(0, 1)).transpose(0, 1)[0].tolist()
+        tw = td["time_windows"][0].tolist()
+        bad = [{"customer": j + 1, "dist": d[j], "window": tw[j + 1], "draws": [obj["ts_1"][j + 1], obj["ts_2"][j + 1]]} for j in range(n)
+               if not (0 <= tw[j + 1][0] < tw[j + 1][1] and d[j] <= tw[j + 1][1] and tw[j + 1][1] + d[j] <= obj["max_time"])]
+        print("observed: customers violating it:", bad)
+        print("still fails" if bad else "no longer fails")
+        return 1 if bad else 0
     if kind == "generated" and gen in ("pdp", "mdcpdp"):
         from rl4co.envs.routing.mdcpdp.generator import MDCPDPGenerator
         from rl4co.envs.routing.pdp.generator import PDPGenerator
